@@ -19,7 +19,9 @@ RULE = ("scenarios with 2-3 endpoints (threads), up to 4 sends/receives each: on
         "Oracle: per (direction, socket id) the receive history must be a duplicate-free, order-preserving prefix of the "
         "accepted sends; every message accepted while both ends were connected is delivered when the receiver performs "
         "enough receives or has a callback; an empty non-blocking receive raises instead of blocking or returning a "
-        "message; both endpoints rendezvous in every start order. Non-trivial = the schedule contains a preemption inside "
+        "message; both endpoints rendezvous in every start order."
+        ' Plus free-running threads with 66 000 - 300 000 pending messages and a StructuredMessage object refilled and sent again. '
+        "Non-trivial = the schedule contains a preemption inside "
         "a hub/socket method; distinct = distinct (scenario, choice list).")
 ASSUMPTIONS = ["interleavings at statement granularity inside the thread-socket modules; finer (bytecode-level) interleavings are not explored",
                "each endpoint key connects once per hub reset (residue for a later socket with the same key is not judged)",
